@@ -6,10 +6,11 @@ note = sys.argv[5] if len(sys.argv) > 5 else ""
 edits = []
 cur_file = None
 old, new = [], []
+cur_line = 0
 def flush():
     global old, new
     if cur_file and (old or new):
-        edits.append({"file": cur_file, "old": "\n".join(old), "new": "\n".join(new)})
+        edits.append({"file": cur_file, "old": "\n".join(old), "new": "\n".join(new), "line": cur_line})
     old, new = [], []
 for line in open(patch).read().split("\n"):
     if line.startswith("diff --git"):
@@ -20,6 +21,7 @@ for line in open(patch).read().split("\n"):
         continue
     elif line.startswith("@@"):
         flush()
+        cur_line = int(re.search(r"\+(\d+)", line).group(1))
     elif cur_file is not None:
         if line.startswith("-"): old.append(line[1:])
         elif line.startswith("+"): new.append(line[1:])
@@ -31,8 +33,8 @@ flush()
 for e in edits:
     e["old"] = e["old"].rstrip("\n"); e["new"] = e["new"].rstrip("\n")
     src = open("/repo/" + e["file"]).read()
-    if src.count(e["old"]) != 1:
-        print("WARNING: hunk of", e["file"], "occurs", src.count(e["old"]), "times")
+    if src.count(e["old"]) == 0:
+        print("WARNING: hunk of", e["file"], "does not occur")
 os.makedirs("/verif/mutants/" + prop, exist_ok=True)
 json.dump({"name": name, "edits": edits, "expect": [x for x in expect.split(",") if x], "note": note},
           open("/verif/mutants/%s/%s.json" % (prop, name), "w"), indent=1)
